@@ -68,6 +68,17 @@ let () =
         (gio_bip_from_nx gt_str_eqb (to_chars nm) (to_list (to_pair to_chars to_z) nodes)
            (to_list (to_pair to_chars to_chars) edges))
                                           | _ -> raise (Bad "arity"));
+  (* from_networkx on integer labels (gml ids): kind name nodes edges *)
+  register "gio_from_nx_int" (function [k; nm; nodes; edges] ->
+      of_opt (of_res of_graph)
+        (gio_from_nx Z.ltb Z.eqb (kind_of (to_str k)) (to_chars nm) (to_list to_z nodes)
+           (to_list (to_pair to_z to_z) edges))
+                                      | _ -> raise (Bad "arity"));
+  register "gio_bip_from_nx_int" (function [nm; nodes; edges] ->
+      of_res of_graph
+        (gio_bip_from_nx Z.eqb (to_chars nm) (to_list (to_pair to_z to_z) nodes)
+           (to_list (to_pair to_z to_z) edges))
+                                          | _ -> raise (Bad "arity"));
   (* primitives *)
   register "gt_int" (function [s] -> of_opt of_z (gt_int (to_chars s)) | _ -> raise (Bad "arity"));
   register "gt_print" (function [z] -> of_chars (gt_print_Z (to_z z)) | _ -> raise (Bad "arity"));
